@@ -41,3 +41,21 @@ func H_C04_reverse_content() {
 	symx.Assert(symx.Or(occurs, !modified), "nothing replaced, nothing reported")
 	symx.Observe("reverse", in, got, modified)
 }
+
+// H_C04_reverse_long_line (not registered: it does not finish within five minutes in the engine,
+// see DESIGN.md section 8, C04-6): a key that straddles the 4096-byte mark of bufio's
+// buffer inside one long line is still replaced (lines are read whole).
+func H_C04_reverse_long_line() {
+	pairs := reverseKeySets[0]
+	k := 1 + symx.Choose(2) // the symbolic text starts 1..2 bytes before the mark
+	tail := symx.String("in", 2)
+	in := strings.Repeat(".", 4096-k) + tail + "z\n"
+	var out bytes.Buffer
+	modified, err := reverseContent(&out, strings.NewReader(in), strings.NewReplacer(pairs...))
+	symx.Reach("reversed")
+	symx.Assert(err == nil, "no error on an in-memory reader")
+	got := out.String()
+	want := strings.Repeat(".", 4096-k) + refReplace(pairs, tail+"z\n")
+	symx.Assert(got == want, "a key across a read boundary is replaced like anywhere else")
+	symx.Assert(modified == (got != in), "modified is reported iff something changed")
+}
